@@ -83,10 +83,39 @@ def cases(rng, tier):
     return out
 
 
+def fetch_cases(rng, tier):
+    """fetch_instruction against Spec.Memory.fetch_spec: ARM words, 16-bit and 32-bit Thumb instructions, CPSR.E either way"""
+    from props.c02 import mk_state
+    t = statelib.load_index(C.GEN)['tables']
+    out = []
+    n = 80 if tier == 'quick' else 4000
+    ipc = t['rnames'].index('PC')
+    icpsr = t['sys_names'].index('cpsr')
+    for _ in range(n):
+        thumb = rng.random() < 0.65
+        cfgd, st, secure = mk_state(rng, t, thumb)
+        pc = 0x1000 + rng.randrange(0, 0x7C) * 2
+        if not thumb:
+            pc &= ~3
+        st['R'][ipc] = pc
+        st['sys'][icpsr] = (st['sys'][icpsr] & ~(1 << 9)) | (rng.getrandbits(1) << 9)
+        if thumb and rng.random() < 0.6:
+            off = pc - 0x1000
+            hw1 = (rng.choice([0b11101, 0b11110, 0b11111, 0b11100]) << 11) | rng.getrandbits(11)
+            st['mem'][0][2][off:off + 2] = [hw1 & 0xFF, hw1 >> 8]
+        cfg = statelib.coq_config(cfgd, t)
+        m = statelib.coq_machine(st)
+        out.append({'impl': {'kind': 'method', 'state': st, 'method': 'fetch_instruction', 'args': [], 'rt': ['Z'], '_only_result': True},
+                    'model': f'(match ArmV6_fetch_instruction {cfg} {m} with Ok v _ => [0; v] | Exc e _ => exn_enc e end)',
+                    'spec': f'[0; fetch_spec {m}]', 'label': 'fetch_' + ('thumb' if thumb else 'arm'), 'nontrivial': True})
+    return out
+
+
 def units():
     thms = ['C13_MemA_read', 'C13_MemA_write', 'C13_MemA_read_fault', 'C13_MemA_write_fault', 'C13_MemU_read_dispatch',
             'C13_MemU_write_dispatch', 'C13_flat_translation', 'C13_MemA_read_flat', 'C13_MemA_write_flat', 'C13_MemU_read_flat',
             'C13_MemU_write_flat', 'C13_fetch_little_endian', 'C13_reverse_involutive', 'C13_store_load']
     needs = ['arm_v6.ArmV6.' + n for n in ('mem_a_with_priv_get', 'mem_a_with_priv_set', 'mem_u_with_priv_get', 'mem_u_with_priv_set',
                                            'mem_i_get', 'alignment_fault', 'data_abort', 'translate_address_p')]
-    return [Unit('memory_access', thms, ['Proofs/MemProofs.v', 'Proofs/MemFacts.v', 'Proofs/HubProofs.v'], needs, cases, IMPORTS, SPEC_IMPORTS)]
+    return [Unit('memory_access', thms, ['Proofs/MemProofs.v', 'Proofs/MemFacts.v', 'Proofs/HubProofs.v'], needs, cases, IMPORTS, SPEC_IMPORTS),
+            Unit('fetch', [], [], [], fetch_cases, IMPORTS, SPEC_IMPORTS)]
